@@ -5,6 +5,7 @@
 # 2. runs the property's check (and any extra ones) against that worktree with the patch applied.
 # Prints one JSON line with the outcome.
 set -u
+VROOT=$(cd "$(dirname "$0")/.." && pwd)
 P=$1; D=$(realpath "$2"); WT=$(realpath "$3"); TIER=${4:-quick}; shift; shift; shift; shift || true
 EXTRA="$@"
 case "$D" in "$WT"/*) echo "mutant dir must live outside the worktree (go test ./... would pick it up)"; exit 2;; esac
@@ -37,7 +38,7 @@ git apply $D/patch.diff
 mkdir -p $D/evidence $D/replays
 res=""
 for prop in $P $EXTRA; do
-  out=$(cd /verif && VERIF_REPO=$WT VERIF_EVIDENCE_DIR=$D/evidence VERIF_REPLAY_DIR=$D/replays VERIF_WORKERS=${VERIF_WORKERS:-8} timeout 3000 ./vcheck $prop --tier $TIER 2>&1); rc=$?
+  out=$(cd "$VROOT" && VERIF_REPO=$WT VERIF_EVIDENCE_DIR=$D/evidence VERIF_REPLAY_DIR=$D/replays VERIF_WORKERS=${VERIF_WORKERS:-8} timeout 3000 ./vcheck $prop --tier $TIER 2>&1); rc=$?
   echo "=== vcheck $prop rc=$rc" >>$log; echo "$out" | cut -c1-700 | head -40 >>$log
   nv=$(echo "$out" | grep -c '^VIOLATION')
   res="$res\"$prop\":{\"rc\":$rc,\"violation_lines\":$nv},"
